@@ -82,7 +82,7 @@ def _case(draw, tier):
 
 
 EXHAUSTIVE_NOTE = ("a fixed stratum is enumerated besides the generated cases: class (9) x radial origin {offset, axis} x scheme {central, upwind} x "
-                   "boundary pattern {Robin low / Neumann high, Neumann low / Robin high} x flow direction {v, -v} on graded grids, so that "
+                   "boundary pattern {Robin low / Neumann high, Neumann low / Robin high} x flow direction {v, -v} on graded grids (plus transient upwind variants in 1-D/2-D), so that "
                    "every class meets inflow and outflow through a non-Dirichlet side in every run")
 
 
@@ -114,6 +114,10 @@ def enumerate_cases(tier):
                             par[f'p{i + 1}'] = [0.5, 1.3, 2.2][i]
                             par[f'v{i + 1}'] = sgn * [0.7, -0.5, 1.0][i]
                         yield dict(name=name, axis=axis, dom=dom, transient=False, scheme=scheme, bc=bc, par=par, T=0.2, enumerated=True)
+                        if scheme == 'upwind' and nd <= 2 and pat == ('R', 'N'):
+                            # a time loop: the same coefficient objects serve every step
+                            yield dict(name=name, axis=axis, dom=dom, transient=True, scheme=scheme, bc=bc, par=dict(par, lam=0.5, al=1.0), T=0.2,
+                                       enumerated=True)
 
 
 def strategy(tier):
